@@ -246,6 +246,8 @@ def ob_api_batch(batch):
         for k in ("paths", "branches", "checks", "claims"):
             agg[k] += d[k]
         agg["solver_s"] += d["solver_s"]
+        from vk import sym as _sym
+        _sym.merge_xcheck(agg, d)
         for c in d["cexs"]:
             c["pattern"], c["source"] = p, s
             agg["cexs"].append(c)
